@@ -36,15 +36,15 @@ package nfs
 //@ specfunc rpcPost(nfs *Nfs) = quiet() && !muheld[base(nfs.shrinkst.mu)]
 //@ specfunc heldOnly(a uint64) = forall i uint64 :: held[i] <==> i == a
 //@ specfunc heldOnly2(a uint64, b uint64) = forall i uint64 :: held[i] <==> (i == a || i == b)
-//@ specfunc goodIp(ip *inode.Inode) = ip != nil && held[ip.Inum] && inodeInv(ip) && !dirtyinum[ip.Inum] && ip.Kind != 0
+//@ specfunc goodIp(ip *inode.Inode) = ip != nil && held[ip.Inum] && inodeInv(ip) && !dirtyinum[ip.Inum] && ip.Kind != 0 && (ip.Kind == 2 ==> dirShape(ip))
 //@ specfunc matches(ip *inode.Inode, h nfstypes.Nfs_fh3) = ip.Inum == fhIno(h) && ip.Gen == fhGen(h)
 //@ specfunc txOpen(op *fstxn.FsTxn) = op != nil && opOpen(op) && cphase == 0 && dirtyInv() && allocInv()
 
 //@ define TXALLOC fstxn.FsTxn, alloctxn.AllocTxn, jrnl.Op, []uint64, map[uint64]*inode.Inode, cache.Cslot, inode.Inode, buf.Buf, marshal.Dec, marshal.Enc, cell:uint64, []uint8, addr.Addr
 //@ define TXMODS held, lastst, curop, freshinum, wroteinum, cphase, abits, dirtyinum, cache.Cslot.Obj, map[uint64]*inode.Inode
-//@ define SHRINKMODS muheld, inode.Inode.ShrinkSize, []uint64@inode.Inode.blks, []uint64@alloctxn.AllocTxn.freeBnums, alloctxn.AllocTxn.freeBnums, buf.Buf.dirty, []uint8
-//@ define FILEMODS inode.Inode.Size, inode.Inode.ShrinkSize, inode.Inode.Atime, inode.Inode.Mtime, inode.Inode.Kind, inode.Inode.Nlink, inode.Inode.Gen, inode.Inode.Inum, inode.Inode.Dcache, []uint64@inode.Inode.blks, alloctxn.AllocTxn.allocBnums, []uint64@alloctxn.AllocTxn.allocBnums, alloctxn.AllocTxn.freeBnums, []uint64@alloctxn.AllocTxn.freeBnums, alloctxn.AllocTxn.allocInums, []uint64@alloctxn.AllocTxn.allocInums, alloctxn.AllocTxn.freeInums, []uint64@alloctxn.AllocTxn.freeInums, buf.Buf.dirty, []uint8
-//@ define DIRMODS dnames, dcache.Dcache.Lastoff, nfstypes.Entry3, cell:*nfstypes.Entry3, nfstypes.Entryplus3, cell:*nfstypes.Entryplus3, map[string]dcache.Dentry, emitted, emitany, emitlast
+//@ define SHRINKMODS muheld, inode.Inode.ShrinkSize, []uint64@inode.Inode.blks, []uint64@alloctxn.AllocTxn.freeBnums, alloctxn.AllocTxn.freeBnums, buf.Buf.dirty, []uint8@buf.Buf.Data
+//@ define FILEMODS inode.Inode.Size, inode.Inode.ShrinkSize, inode.Inode.Atime, inode.Inode.Mtime, inode.Inode.Kind, inode.Inode.Nlink, inode.Inode.Gen, inode.Inode.Inum, inode.Inode.Dcache, []uint64@inode.Inode.blks, alloctxn.AllocTxn.allocBnums, []uint64@alloctxn.AllocTxn.allocBnums, alloctxn.AllocTxn.freeBnums, []uint64@alloctxn.AllocTxn.freeBnums, alloctxn.AllocTxn.allocInums, []uint64@alloctxn.AllocTxn.allocInums, alloctxn.AllocTxn.freeInums, []uint64@alloctxn.AllocTxn.freeInums, buf.Buf.dirty, []uint8@buf.Buf.Data
+//@ define DIRMODS dcache.Dcache.Lastoff, nfstypes.Entry3, cell:*nfstypes.Entry3, nfstypes.Entryplus3, cell:*nfstypes.Entryplus3, map[string]dcache.Dentry, emitted, emitany, emitlast
 //@ define DIRALLOC dir.dirEnt, dcache.Dcache, map[string]dcache.Dentry, nfstypes.Entry3, nfstypes.Entryplus3
 // a transaction that may be ended either way: open, and every held inode is in sync with it
 //@ specfunc endable(op *fstxn.FsTxn) = txOpen(op) && (forall i uint64 :: held[i] ==> !dirtyinum[i])
@@ -54,7 +54,7 @@ package nfs
 //@   props C05 C06 C03 C08 C09 C11 C01
 //@   requires rpcPre(nfs)
 //@   allocates fstxn.FsTxn, alloctxn.AllocTxn, jrnl.Op, []uint64, map[uint64]*inode.Inode, cache.Cslot, inode.Inode, buf.Buf, marshal.Dec, marshal.Enc, cell:uint64, []uint8, addr.Addr
-//@   modifies held, lastst, curop, freshinum, wroteinum, cphase, abits, dirtyinum, muheld, cache.Cslot.Obj, map[uint64]*inode.Inode, inode.Inode.ShrinkSize, []uint64@inode.Inode.blks, []uint64@alloctxn.AllocTxn.freeBnums, alloctxn.AllocTxn.freeBnums, buf.Buf.dirty, []uint8
+//@   modifies held, lastst, curop, freshinum, wroteinum, cphase, abits, dirtyinum, muheld, cache.Cslot.Obj, map[uint64]*inode.Inode, inode.Inode.ShrinkSize, []uint64@inode.Inode.blks, []uint64@alloctxn.AllocTxn.freeBnums, alloctxn.AllocTxn.freeBnums, buf.Buf.dirty, []uint8@buf.Buf.Data
 //@   ensures [open] txOpen(result0) && result0.Fs == nfs.fsstate && !muheld[base(nfs.shrinkst.mu)] @C09
 //@   ensures [H1-validated] result2 == 0 ==> goodIp(result1) && matches(result1, fh) && heldOnly(result1.Inum) @C08
 //@   ensures [F6-notshrinking] result2 == 0 ==> !result1.IsShrinking() @C05
@@ -178,19 +178,65 @@ package nfs
 // C06-D1/D2: lockInodes acquires in ascending inode-number order, each number
 // once; the inodes come back in the caller's order. (C08: nothing is said
 // about generations: callers must revalidate.)
-//@ specfunc allClean() = forall i uint64 :: held[i] ==> !dirtyinum[i] && abits[theIalloc][i]
+//@ specfunc allClean() = forall i uint64 :: held[i] ==> !dirtyinum[i]
 //@ spec lockInodes
 //@   props C06 C03 C08 C09 C11 C14
-//@   requires txOpen(op) && len(inums) <= 8
+//@   requires txOpen(op) && len(inums) <= 4
 //@   requires [D4-fromscratch] noLocks() @C06
 //@   allocates $TXALLOC
 //@   modifies $TXMODS, sortperm
-//@   ensures [aborted] len(result) == 0 && len(inums) > 0 ==> noLocks() && lastst == 3 && dirtyInv() && allocInv() @C09 @C06
-//@   ensures [locked] len(result) != 0 ==> len(result) == len(inums) && txOpen(op) && allClean() && (forall k uint64 :: k < len(inums) ==> held[inums[k]] && result[k] == op.inodes[inums[k]]) @C06 @C08
+//@   ensures [aborted] result == nil ==> noLocks() && lastst == 3 && dirtyInv() && allocInv() @C09 @C06
+//@   ensures [locked] result != nil ==> len(result) == len(inums) && txOpen(op) && allClean() @C06 @C08
+//@   ensures [locked-all] result != nil ==> (forall k uint64 :: k < len(inums) ==> held[inums[k]] && result[k] == op.inodes[inums[k]] && result[k] != nil && result[k].Inum == inums[k]) @C06 @C08
+//@   ensures [locked-0] result != nil && len(inums) > 0 ==> inodeInv(result[0]) && (result[0].Kind == 2 ==> dirShape(result[0])) @C08
+//@   ensures [locked-1] result != nil && len(inums) > 1 ==> inodeInv(result[1]) && (result[1].Kind == 2 ==> dirShape(result[1])) @C08
+//@   ensures [locked-2] result != nil && len(inums) > 2 ==> inodeInv(result[2]) && (result[2].Kind == 2 ==> dirShape(result[2])) @C08
+//@   ensures [locked-3] result != nil && len(inums) > 3 ==> inodeInv(result[3]) && (result[3].Kind == 2 ==> dirShape(result[3])) @C08
 //@   loop 0 invariant [tx] txOpen(op) && allClean() && len(sorted) == len(inums) && rangeindex >= -1 && uint64(rangeindex + 1) <= len(sorted)
 //@   loop 0 invariant [sorted] forall a uint64, b uint64 :: a < b && b < len(sorted) ==> sorted[a] <= sorted[b]
 //@   loop 0 invariant [perm] forall b uint64 :: b < len(inums) ==> sortperm[b] < len(sorted) && sorted[sortperm[b]] == inums[b]
 //@   loop 0 invariant [heldprefix] (forall i uint64 :: held[i] ==> exists k uint64 :: k < uint64(rangeindex + 1) && sorted[k] == i) && (forall k uint64 :: k < uint64(rangeindex + 1) ==> held[sorted[k]])
 //@   loop 1 invariant [tx] txOpen(op) && allClean() && len(inodes) == len(inums) && rangeindex >= -1 && uint64(rangeindex + 1) <= len(inums)
 //@   loop 1 invariant [allheld] forall k uint64 :: k < len(inums) ==> held[inums[k]]
-//@   loop 1 invariant forall k uint64 :: k < uint64(rangeindex + 1) ==> inodes[k] == op.inodes[inums[k]]
+//@   loop 1 invariant forall k uint64 :: k < uint64(rangeindex + 1) ==> inodes[k] == op.inodes[inums[k]] && inodes[k] != nil && inodes[k].Inum == inums[k] && inodeInv(inodes[k]) && (inodes[k].Kind == 2 ==> dirShape(inodes[k]))
+
+
+// C03-L3, C08-H1: relocking in order revalidates the parent's generation and the name under both locks.
+//@ spec lookupOrdered
+//@   props C03 C06 C08 C09 C11 C02
+//@   requires [tx] txOpen(op)
+//@   requires [nolocks] noLocks()
+//@   requires [distinct] inm != parent.Ino
+//@   allocates $TXALLOC, $DIRALLOC
+//@   modifies $TXMODS, $FILEMODS, $DIRMODS, sortperm
+//@   ensures [aborted] result == nil ==> noLocks() && lastst == 3 && dirtyInv() && allocInv() @C09 @C06
+//@   ensures [L3-revalidated] result != nil ==> len(result) == 2 && txOpen(op) && allClean() && held[inm] && held[parent.Ino] && result[0] == op.inodes[inm] && result[1] == op.inodes[parent.Ino] && result[1].Gen == parent.Gen && result[1].Kind == 2 && dnames[parent.Ino][name] == inm && inm != 0 && inm != parent.Ino @C03 @C08
+//@   ensures [L3-distinct] result != nil ==> result[0] != result[1] @C03
+//@   ensures [L3-inodes] result != nil ==> result[0] != nil && result[0].Inum == inm && inodeInv(result[0]) && (result[0].Kind == 2 ==> dirShape(result[0])) && result[1] != nil && result[1].Inum == parent.Ino && inodeInv(result[1]) && dirShape(result[1]) @C03
+
+// getInodesLocked: the directory (validated against its handle) and the
+// inode that `name` denotes in it, both locked in ascending order.
+//@ specfunc gilChild(ins []*inode.Inode, dfh nfstypes.Nfs_fh3, name nfstypes.Filename3) = len(ins) >= 1 && len(ins) <= 2 && ins[0] != nil && held[ins[0].Inum] && inodeInv(ins[0]) && (ins[0].Kind == 2 ==> dirShape(ins[0])) && ins[0].Inum == dnames[fhIno(dfh)][name] && ins[0].Inum != 0
+//@ specfunc gilParent(ins []*inode.Inode, dfh nfstypes.Nfs_fh3) = (len(ins) == 2 ==> ins[1] != nil && held[ins[1].Inum] && inodeInv(ins[1]) && ins[1].Kind == 2 && dirShape(ins[1]) && ins[1].Inum == fhIno(dfh) && ins[1].Gen == fhGen(dfh) && ins[0].Inum != ins[1].Inum) && (len(ins) == 1 ==> ins[0].Inum == fhIno(dfh) && ins[0].Gen == fhGen(dfh) && ins[0].Kind == 2)
+//@ spec (*Nfs).getInodesLocked
+//@   props C02 C03 C06 C08 C09 C11
+//@   requires rpcPre(nfs)
+//@   allocates $TXALLOC, $DIRALLOC
+//@   modifies $TXMODS, $FILEMODS, $DIRMODS, sortperm
+//@   ensures [open] txOpen(result0) && allClean() && result0.Fs == nfs.fsstate && !muheld[base(nfs.shrinkst.mu)] @C09
+//@   ensures [H1-child] result2 == 0 ==> gilChild(result1, dfh, name) @C08 @C02
+//@   ensures [H1-parent] result2 == 0 ==> gilParent(result1, dfh) @C08 @C03
+//@   ensures [Fn6-status] result2 == 0 || result2 == 70 || result2 == 2 @C02
+//@   loop 0 invariant nfsInv(nfs) && !muheld[base(nfs.shrinkst.mu)] && dirtyInv() && allocInv()
+//@   loop 0 invariant [idle] ip == nil ==> noLocks()
+//@   loop 0 invariant [found] ip != nil ==> txOpen(op) && allClean() && op.Fs == nfs.fsstate && gilChild(inodes, dfh, name) && gilParent(inodes, dfh)
+
+//@ spec (*Nfs).NFSPROC3_LOOKUP
+//@   props C01 C02 C03 C06 C08 C09 C10 C11 C14
+//@   requires rpcPre(nfs)
+//@   allocates $TXALLOC, $DIRALLOC, nfstypes.LOOKUP3res
+//@   modifies $TXMODS, $FILEMODS, $DIRMODS, sortperm
+//@   ensures [R2-durable] result.Status == 0 ==> lastst == 1 @C01
+//@   ensures [A1-aborted] result.Status != 0 ==> lastst == 3 || lastst == 4 @C09
+//@   ensures [H3-handle] result.Status == 0 ==> len(result.Resok.Object.Data) == 16 && le64(result.Resok.Object.Data, 0) == old(dnames)[fhIno(args.What.Dir)][args.What.Name] && uint64(result.Resok.Obj_attributes.Attributes.Fileid) == le64(result.Resok.Object.Data, 0) @C08 @C02
+//@   ensures [L2-quiet] rpcPost(nfs) @C03 @C06 @C14
